@@ -208,6 +208,12 @@ def run(ctx: Ctx) -> None:
                 n3 += 1
                 first = c.args[0] if c.args else None
                 flag = c.args[2] if len(c.args) > 2 else next((k.value for k in c.keywords if k.arg == "is_list"), None)
+                if isinstance(flag, ast.Name):
+                    # the flag computed into a local first: follow its single assignment
+                    defs_ = [a_ for a_ in walk_local(f.node) if isinstance(a_, ast.Assign) and len(a_.targets) == 1 and isinstance(a_.targets[0], ast.Name)
+                             and a_.targets[0].id == flag.id]
+                    if len(defs_) == 1:
+                        flag = defs_[0].value
                 ok = flag is not None and isinstance(flag, ast.Call) and call_name(flag) == "isinstance" and len(flag.args) == 2 \
                     and first is not None and norm(flag.args[0]) == norm(first) and norm(flag.args[1]) in ("list", "GengyList")
                 ctx.ob("C11.R3", f, c, f"relabel_nodes({norm(first) if first is not None else '?'}, ..) passes the list flag", ok,
